@@ -49,6 +49,14 @@ func genC22(t *rapid.T) SchedCase {
 	if vt.Chance(t, "prep", 50) {
 		c.Prep = []Op{{Kind: "create", Deploy: &world.DeploySpec{App: "a", Entry: "web", Pod: c.Setup.Nodes[0].Pod, Strategy: "AUTO", Count: 2, Res: world.ResSpec{CPU: 0.25, Mem: 16 * MiB}}}}
 	}
+	// nodes the operator marked down (bypass): they still exist and still belong to their pod
+	if vt.Chance(t, "bypassSome", 40) {
+		for _, nd := range c.Setup.Nodes {
+			if vt.Chance(t, "bypass", 60) {
+				c.Prep = append(c.Prep, Op{Kind: "setnode", SetNode: &SetNodeSpec{Node: nd.Name, Bypass: 1, AddCore: -1}})
+			}
+		}
+	}
 	n := rapid.IntRange(2, 4).Draw(t, "nCalls")
 	for i := 0; i < n; i++ {
 		op := Op{Kind: rapid.SampledFrom([]string{"addpod", "removepod", "addnode", "removenode", "create", "remove"}).Draw(t, "kind")}
